@@ -73,12 +73,22 @@ def copy_bytes(ex, d, s, n, what):
         need_cap(ex, n, what)
     else:
         need_cap(ex, n, what)
-    ex.flush(d.obj)
-    ex.flush(s.obj)
+    flush_from(ex, d)
+    flush_from(ex, s)
     src = s.obj.arr
     for i in range(capn(ex)):
         idx = bv(d.off) + i
         d.obj.arr = z3.Store(d.obj.arr, idx, z3.If(z3.ULT(z3.BitVecVal(i, 64), n), z3.Select(src, bv(s.off) + i), z3.Select(d.obj.arr, idx)))
+
+
+def flush_from(ex, p):
+    """make the bytes from p on readable through the byte array (cells before a concrete offset are left alone,
+    e.g. the header of an object whose tail is character data)"""
+    off = conc(p.off)
+    if off is None:
+        ex.flush(p.obj)
+    else:
+        ex.flush(p.obj, off, 1 << 62)
 
 
 def m_memset(ex, name, a, at, rt):
@@ -114,7 +124,7 @@ def strlen_term(ex, p, what="strlen"):
     o = p.obj
     if not o.live:
         ex.violation("use-after-free", "%s of freed object %s" % (what, o.name))
-    ex.flush(o)
+    flush_from(ex, p)
     base = bv(p.off)
     size = bv(o.size)
     N = capn(ex)
@@ -191,6 +201,16 @@ def m_malloc(ex, name, a, at, rt):
     o = ex.new_obj("malloc", n if conc(n) is None else conc(n), "heap", "malloc")
     ex.events.append(("alloc", "malloc", o))
     return Ptr(o, 0)
+
+
+def m_strdup(ex, name, a, at, rt):
+    src = a[0]
+    L = strlen_term(ex, src, "strdup source")
+    o = ex.new_obj("strdup", L + 1, "heap", "malloc")
+    ex.events.append(("alloc", "malloc", o))
+    d = Ptr(o, 0)
+    copy_bytes(ex, d, src, L + 1, "strdup")
+    return d
 
 
 def m_calloc(ex, name, a, at, rt):
@@ -386,6 +406,7 @@ def install(ex):
     I["memchr"] = m_memchr
     I["malloc"] = m_malloc
     I["calloc"] = m_calloc
+    I["strdup"] = m_strdup
     I["free"] = m_free
     for n in ("_Znwm", "_Znam"):
         I[n] = m_new
